@@ -12,13 +12,20 @@
    Up to three sessions run concurrently against the same acceptor node b:
        session 1: honest dialer a          session 2: dialer m, the attacker's own node
        session 3: node b itself dialling its own listener (a self-connection, e.g. through a relay).
+   The session secret is derived from BOTH ephemeral ECDH contributions: Secret(s) = <<deph[s], aeph[s]>>,
+   the dialer's fresh key (sent in its SecureRequest) and the acceptor's fresh key (generated in
+   handleSecureRequest for every inbound connection).  So the attacker may also REPLAY A WHOLE
+   RECORDED TRANSCRIPT: it opens a new connection t to the acceptor, sends the recorded SecureRequest
+   bytes of session s (same dialer contribution) and then that session's recorded SignatureRequest.
+   Because the acceptor contributes fresh randomness to every session the new secret differs, the
+   replayed signature does not verify and the connection is never identified as the recorded peer.
    The attacker controls the network: it sees every signature message, delivers, replaces or
    splices them between sessions, and can sign with m's key whatever it knows (only the secret
    of its own session).  Cryptography is symbolic: a signature is the term [w, c] (signer,
    content); it verifies under public key k against content x iff w = owner(k) and c = x and
    its encoding was not damaged.  Session secrets are the session numbers. *)
 EXTENDS Integers, Sequences, FiniteSets, TLC
-CONSTANTS Sessions,     \* subset of {1, 2, 3}
+CONSTANTS Sessions,     \* subset of {1, 2, 3} (real dialers) \cup {4, 5} (connections opened by transcript replay)
           PkForms,      \* encodings of a public key: "comp", "uncomp" parse; "bad" does not
           SigForms,     \* "full", "nov" (64 bytes), "vflip" verify;  "rflip" does not verify;
                         \* "empty", "short", "long" do not parse
@@ -27,16 +34,20 @@ CONSTANTS Sessions,     \* subset of {1, 2, 3}
 
 Acceptor == "b"
 Attacker == "m"
-DialerOf(s) == CASE s = 1 -> "a" [] s = 2 -> Attacker [] OTHER -> Acceptor
+DialerOf(s) == CASE s = 1 -> "a" [] s = 2 -> Attacker [] s = 3 -> Acceptor [] OTHER -> "nobody"
+Dialled == Sessions \cap {1, 2, 3}        \* sessions with a real dialer node
+Replayed == Sessions \ {1, 2, 3}          \* connections the attacker opens with a recorded SecureRequest
 Wallets == {"a", "b", "m"}
 Known == {s \in Sessions : DialerOf(s) = Attacker}     \* session secrets the attacker knows
 
 VARIABLES dph, did,     \* dialer side of each session: "idle" | "wait" | "acc" | "closed", assigned identity
           aph, aid,     \* acceptor side: "idle" | "wait" | "acc" | "closed", assigned identity
+          deph, aeph,   \* ephemeral key contributions of the dialer / the acceptor (0 = none yet)
+          src,          \* for a replayed connection: the session whose transcript is replayed
           amsg, dmsg,   \* the message on which the identity was assigned
           seen,         \* signature terms that have travelled over the network
           nops, hist
-vars == <<dph, did, aph, aid, amsg, dmsg, seen, nops, hist>>
+vars == <<dph, did, aph, aid, deph, aeph, src, amsg, dmsg, seen, nops, hist>>
 
 Msg(pkw, pkf, sw, sc, sf, err) == [pkw |-> pkw, pkf |-> pkf, sw |-> sw, sc |-> sc, sf |-> sf, err |-> err]
 \* what the attacker can put into a signature message
@@ -45,11 +56,14 @@ Msg(pkw, pkf, sw, sc, sf, err) == [pkw |-> pkw, pkf |-> pkf, sw |-> sw, sc |-> s
 Constructible(m) == [w |-> m.sw, c |-> m.sc] \in seen
 Msgs == {Msg(pkw, pkf, sw, sc, sf, FALSE) : pkw \in Wallets, pkf \in PkForms, sw \in Wallets, sc \in Sessions, sf \in SigForms}
 
-\* Authenticator.VerifySignature(publicKey, signature, extra of session s)
+\* HKDF(ECDH(dialer contribution, acceptor contribution)): equal iff both contributions are equal
+Secret(s) == <<deph[s], aeph[s]>>
+\* Authenticator.VerifySignature(publicKey, signature, extra of session s); m.sc names the session
+\* whose secret was signed
 Verify(m, s) ==
   IF m.pkf = "bad" THEN "error:pubkey"
   ELSE IF m.sf \in {"empty", "short", "long"} THEN "error:sigparse"
-  ELSE IF m.sf = "rflip" \/ m.sw # m.pkw \/ m.sc # s THEN "error:verify"
+  ELSE IF m.sf = "rflip" \/ m.sw # m.pkw \/ Secret(m.sc) # Secret(s) THEN "error:verify"
   ELSE "ok"
 
 Log(e) == /\ nops' = nops + 1
@@ -60,16 +74,31 @@ NoMsg == Msg("", "", "", 0, "", FALSE)
 
 Init == /\ dph = [s \in Sessions |-> "idle"] /\ did = [s \in Sessions |-> ""]
         /\ aph = [s \in Sessions |-> "idle"] /\ aid = [s \in Sessions |-> ""]
+        /\ deph = [s \in Sessions |-> 0] /\ aeph = [s \in Sessions |-> 0] /\ src = [s \in Sessions |-> 0]
         /\ amsg = [s \in Sessions |-> NoMsg] /\ dmsg = [s \in Sessions |-> NoMsg]
         /\ seen = {} /\ nops = 0 /\ hist = <<>>
 
 \* connection + key exchange of session s, the dialer emits its genuine SignatureRequest
+\* (both sides generate a fresh ephemeral key: 10+s and 20+s stand for fresh random values)
 Start(s) ==
-  /\ dph[s] = "idle"
+  /\ s \in Dialled /\ dph[s] = "idle"
   /\ dph' = [dph EXCEPT ![s] = "wait"] /\ aph' = [aph EXCEPT ![s] = "wait"]
+  /\ deph' = [deph EXCEPT ![s] = 10 + s] /\ aeph' = [aeph EXCEPT ![s] = 20 + s]
   /\ seen' = seen \cup {[w |-> DialerOf(s), c |-> s]}
-  /\ UNCHANGED <<did, aid, amsg, dmsg>>
+  /\ UNCHANGED <<did, aid, src, amsg, dmsg>>
   /\ Log(Rec("start", s, NoMsg, "ok", DialerOf(s)))
+
+\* the attacker opens connection t and sends the SecureRequest recorded in session s: the dialer
+\* contribution is the recorded one, the acceptor generates a fresh key as for every connection;
+\* nobody holds the private key of the recorded contribution, so nobody knows Secret(t).
+\* (s is a session of an honest node: replaying its own transcript is just a new session of m.)
+ReplayTranscript(t, s) ==
+  /\ t \in Replayed /\ aph[t] = "idle" /\ s \in Dialled /\ DialerOf(s) # Attacker /\ dph[s] # "idle"
+  /\ aph' = [aph EXCEPT ![t] = "wait"] /\ dph' = [dph EXCEPT ![t] = "closed"]
+  /\ deph' = [deph EXCEPT ![t] = deph[s]] /\ aeph' = [aeph EXCEPT ![t] = 20 + t]
+  /\ src' = [src EXCEPT ![t] = s]
+  /\ UNCHANGED <<did, aid, amsg, dmsg, seen>>
+  /\ Log(Rec("replaytx", t, Msg("", "", DialerOf(s), s, "", FALSE), "ok", ""))
 
 \* Authenticator.handleSignatureRequest on the acceptor's peer object of session s
 ToAcceptor(s, m) ==
@@ -81,7 +110,7 @@ ToAcceptor(s, m) ==
         /\ amsg' = [amsg EXCEPT ![s] = IF res = "accept" THEN m ELSE @]
         \* an accepting acceptor answers with its own signature over this session's secret
         /\ seen' = IF res = "accept" THEN seen \cup {[w |-> Acceptor, c |-> s]} ELSE seen
-        /\ UNCHANGED <<dph, did, dmsg>>
+        /\ UNCHANGED <<dph, did, dmsg, deph, aeph, src>>
         /\ Log(Rec("toacc", s, m, res, IF res = "accept" THEN m.pkw ELSE ""))
 
 \* Authenticator.handleSignatureResponse on the dialer's peer object of session s
@@ -92,12 +121,13 @@ ToDialer(s, m) ==
      IN /\ dph' = [dph EXCEPT ![s] = IF res = "accept" THEN "acc" ELSE "closed"]
         /\ did' = [did EXCEPT ![s] = IF res = "accept" THEN m.pkw ELSE @]
         /\ dmsg' = [dmsg EXCEPT ![s] = IF res = "accept" THEN m ELSE @]
-        /\ UNCHANGED <<aph, aid, amsg, seen>>
+        /\ UNCHANGED <<aph, aid, amsg, seen, deph, aeph, src>>
         /\ Log(Rec("todial", s, m, res, IF res = "accept" THEN m.pkw ELSE ""))
 
 Can == nops < MaxOps
 ErrMsg == Msg("", "", "", 0, "", TRUE)
 Next == \/ \E s \in Sessions : Can /\ Start(s)
+        \/ \E t \in Sessions, s \in Sessions : Can /\ ReplayTranscript(t, s)
         \/ \E s \in Sessions, m \in Msgs : Can /\ ToAcceptor(s, m)
         \/ \E s \in Sessions, m \in Msgs \cup {ErrMsg} : Can /\ ToDialer(s, m)
 Spec == Init /\ [][Next]_vars
@@ -105,16 +135,24 @@ Spec == Init /\ [][Next]_vars
 ----------------------------------------------------------------------------
 (* Properties (C32) *)
 \* who can produce a signature over the secret of session s: its two end points
-Ends(s) == {DialerOf(s), Acceptor}
+Ends(s) == {DialerOf(s), Acceptor} \ {"nobody"}
 \* an identity is assigned only on a message whose signature is by that identity's key over the
 \* secret of this very session, with intact encodings
-Bound(m, s, id) == /\ m.pkw = id /\ m.sw = id /\ m.sc = s /\ ~m.err
+Bound(m, s, id) == /\ m.pkw = id /\ m.sw = id /\ Secret(m.sc) = Secret(s) /\ ~m.err
                    /\ m.pkf \in {"comp", "uncomp"} /\ m.sf \in {"full", "nov", "vflip"}
 BoundToSession == \A s \in Sessions : /\ (aph[s] = "acc" => Bound(amsg[s], s, aid[s]))
                                        /\ (dph[s] = "acc" => Bound(dmsg[s], s, did[s]))
 \* consequence on the acceptor: nobody but the real dialer of the session gets an identity there --
 \* the attacker cannot obtain a's identity with a signature from another session, nor b's own
 NoImpersonationAtAcceptor == \A s \in Sessions : aph[s] = "acc" => (aid[s] = DialerOf(s) /\ aid[s] # Acceptor)
+\* the acceptor contributes fresh randomness to every connection ...
+AcceptorFresh == \A s, t \in Sessions : (s # t /\ aeph[s] # 0 /\ aeph[t] # 0) => aeph[s] # aeph[t]
+\* ... so the secrets of distinct sessions are distinct (they could be equal only if BOTH contributions were equal)
+SecretsDistinct == \A s, t \in Sessions : (s # t /\ aeph[s] # 0 /\ aeph[t] # 0) =>
+                      /\ (Secret(s) = Secret(t) => (deph[s] = deph[t] /\ aeph[s] = aeph[t]))
+                      /\ Secret(s) # Secret(t)
+\* ... and a connection opened by replaying a recorded transcript is never identified as anybody
+ReplayedNeverIdentified == \A t \in Replayed : aph[t] # "acc"
 \* consequence on the dialer: the identity belongs to an end point of this session (the dialer side has
 \* no self-identity test, so a reflected SignatureRequest yields the dialer's own identity)
 DialerSeesSessionEnd == \A s \in Sessions : dph[s] = "acc" => did[s] \in Ends(s)
